@@ -115,7 +115,42 @@ function refComment (ref, mapText) {
   return ref.block ? `/*# sourceMappingURL=${u} */\n` : `//# sourceMappingURL=${u}\n`
 }
 
+// ---- generated sequences of reference comments (family E): the LAST one decides, whatever came before ----------
+const SEQ_KINDS = {
+  inlineA: { usable: true, map: 'A', text: (m) => '//# sourceMappingURL=data:application/json;base64,' + b64(m) },
+  inlineWrong: { usable: true, map: 'W', text: () => '//# sourceMappingURL=data:application/json;base64,' + b64(WRONG_MAP) },
+  fileA: { usable: true, map: 'A', path: '/p/dir/gen.js.map', text: () => '//# sourceMappingURL=gen.js.map' },
+  missing: { usable: false, path: '/p/dir/nowhere.js.map', text: () => '//# sourceMappingURL=nowhere.js.map' },
+  badB64: { usable: false, text: () => '//# sourceMappingURL=data:application/json;base64,@@@=' },
+  blockA: { usable: true, map: 'A', text: (m) => '/*# sourceMappingURL=data:application/json;base64,' + b64(m) + ' */' },
+  plain: { notRef: true, text: () => '// just a comment' }
+}
+function makeSeqInput (pick) {
+  const shape = MAP_SHAPES[pick.shape]
+  // code between two comments keeps the earlier one attached to an earlier token
+  const parts = pick.seq.map((x) => x.split('|'))
+  let body = PROGRAMS[pick.prog]
+  const extra = parts.filter((p) => p[1] === 'code').length
+  for (let i = 0; i < extra; i++) body += `function tail${i}(q) { return q + ${i} }\n`
+  const mapObj = buildOriginalMap(body, shape)
+  const mapText = JSON.stringify(mapObj)
+  // lay the text out: comments go after the main program; `code` separators put a tail function before the comment
+  let code = PROGRAMS[pick.prog]
+  let t = 0
+  let last = null
+  for (const [kind, sep] of parts) {
+    if (sep === 'code') code += `function tail${t++}(q) { return q + ${t - 1} }\n`
+    code += SEQ_KINDS[kind].text(mapText) + '\n'
+    if (!SEQ_KINDS[kind].notRef) last = SEQ_KINDS[kind]
+  }
+  // tail functions declared but the map was built over `body` (program + all tails in order): same text order
+  const vfs = { '/p/dir/gen.js.map': { kind: 'text', text: mapText }, '/p/dir/nowhere.js.map': { kind: 'notfound' } }
+  const ref = { url: last ? () => 'x' : null, usable: !!(last && last.usable), path: last && last.path, seq: true, readsAllowed: true, effective: last }
+  return { code, body: code.split('\n').filter((l) => !/sourceMappingURL=|just a comment/.test(l)).join('\n') + '\n', comment: '', mapObj: last && last.map === 'W' ? JSON.parse(WRONG_MAP) : mapObj, vfs, ref }
+}
+
 function makeLeafInput (pick) {
+  if (pick.seq) return makeSeqInput(pick)
   const ref = REFS[pick.ref]
   const shape = pick.shapeObj || MAP_SHAPES[pick.shape]
   const urlForLook = ref.url ? (ref.url('{}').length > 60 ? 'gen.js.map' : ref.url('{}')) : 'gen.js.map'
@@ -148,6 +183,26 @@ async function build (tier) {
   ]
   const r = enumerate(dims, { k: tier === 'thorough' ? 3 : 2 })
   const leaves = r.leaves.map((l) => ({ key: [l.pick.prog, l.pick.ref, l.pick.shape, l.pick.chain, l.pick.comments, l.pick.look].join('¦'), pick: l.pick }))
+  // family E: every sequence of 1..n trailing comments (six reference kinds + an ordinary comment), each either right
+  // after the previous one or after more code, x chain x comments
+  {
+    const n = tier === 'thorough' ? 3 : 2
+    const syms = []
+    for (const k of Object.keys(SEQ_KINDS)) for (const sep of ['nl', 'code']) syms.push(k + '|' + sep)
+    const rec = (seq) => {
+      r.stats.states++
+      // a reference that is followed by more code is not judged (assumption below): the last reference of the
+      // sequence must come after the last piece of code
+      const lastRef = seq.map((x) => !SEQ_KINDS[x.split('|')[0]].notRef).lastIndexOf(true)
+      const lastCode = seq.map((x) => x.split('|')[1] === 'code').lastIndexOf(true)
+      if (seq.length && lastRef >= 0 && lastRef >= lastCode) {
+        for (const chain of [true, false]) for (const comments of [true, false]) { leaves.push({ key: 'E¦' + seq.join(',') + '¦' + chain + '¦' + comments, pick: { prog: 'one_hook', seq, shape: 0, chain, comments, look: 'none' } }); r.stats.leaves++ }
+      }
+      if (seq.length === n) return
+      for (const x of syms) { r.stats.transitions++; rec(seq.concat([x])) }
+    }
+    rec([])
+  }
   // family D: the dense two-source map with up to kd of its tokens dropped / made source-less / re-targeted /
   // moved by one column / named — every subset of <= kd tokens x every combination of those changes
   const kd = tier === 'thorough' ? 3 : 2
@@ -254,12 +309,12 @@ async function check (leaf, resps) {
   if (!inp.ref.path && !inp.ref.readsAllowed && (r.reads || []).length) v('reader-unexpected-read', 'read', `reader asked for ${JSON.stringify(r.reads)} although the reference is inline / absent`)
   // --- nothing else of the program is altered ---
   const body = stripTrailer(r.content); const ref = stripTrailer(rNoRef.content)
-  if (!inp.ref.two && !inp.ref.before && normRemnants(body) !== normRemnants(ref)) {
+  if (!inp.ref.two && !inp.ref.before && !inp.ref.seq && normRemnants(body) !== normRemnants(ref)) {
     const a = normRemnants(body); const b = normRemnants(ref); let i = 0; while (i < a.length && a[i] === b[i]) i++
     v('program-text-altered', pick.look === 'none' ? 'plain' : 'lookalike:' + pick.look, `content (minus trailer and removed comment) differs from the content of the same program without the reference comment at char ${i}: …${JSON.stringify(a.slice(Math.max(0, i - 40), i + 60))} vs …${JSON.stringify(b.slice(Math.max(0, i - 40), i + 60))}`)
   }
   // with comments kept, the superseded end-of-file comment must be gone
-  if (pick.comments && inp.ref.url && !inp.ref.two && !inp.ref.before) {
+  if (pick.comments && inp.ref.url && !inp.ref.two && !inp.ref.before && !inp.ref.seq) {
     const old = inp.comment.trim().replace(/^\/\/|^\/\*|\*\/$/g, '').trim()
     if (body.includes(old) && !LOOKALIKES[pick.look]('x').length) v('old-comment-survives', inp.ref.block ? 'block' : 'line', 'the superseded sourceMappingURL comment is still present in the content')
   }
@@ -273,7 +328,7 @@ module.exports = {
   build,
   requests,
   check,
-  rule: 'leaf = program x reference kind (17: inline / relative / ./ / ../ / absolute / missing / directory / denied / empty / malformed / not-a-map / index map / bad base64 / none / block form / two comments) x original-map shape (28: density, 1-3 sources, names, sourceRoot, sourcesContent, source-less segments, last line only, nothing resolves) x chain x comments x look-alike text, k deviations among program/shape/look-alike; plus family D: the dense map with every subset of <= kd tokens dropped / source-less / re-targeted / shifted / named; each leaf = three real calls (as configured, chaining off, without the reference comment); non-trivial = modified; distinct by (input text, chain, comments)',
+  rule: 'leaf = program x reference kind (17: inline / relative / ./ / ../ / absolute / missing / directory / denied / empty / malformed / not-a-map / index map / bad base64 / none / block form / two comments) x original-map shape (28: density, 1-3 sources, names, sourceRoot, sourcesContent, source-less segments, last line only, nothing resolves) x chain x comments x look-alike text, k deviations among program/shape/look-alike; plus family E: every sequence of 1-2 (3) trailing comments over six reference kinds and an ordinary comment, adjacent or separated by code, x chain x comments (the last reference decides); plus family D: the dense map with every subset of <= kd tokens dropped / source-less / re-targeted / shifted / named; each leaf = three real calls (as configured, chaining off, without the reference comment); non-trivial = modified; distinct by (input text, chain, comments)',
   explanation: 'explicit enumeration of reference kinds, reader answers and map shapes; oracle = independent two-step composition (rewrite map from the chaining-off call, generator-built original map, global greatest-lower-bound, sourceRoot resolution) compared entry by entry with the decoded trailer; fallback must equal the plain rewrite map; content minus trailer must be byte-identical (up to an emptied comment remnant) to the content of the same program without the reference',
   assumptions: ['original maps are synthetic (any valid map must compose)', 'an emptied `//` or `/**/` remnant of the removed comment is tolerated', 'a sourceMappingURL comment that is followed by more code is not judged (only the end-of-file comment is the superseded one)']
 }
